@@ -155,7 +155,7 @@ def check_rounding(x, precision):
     near = abs(Fraction(x) * 10 ** precision - round(Fraction(x) * 10 ** precision)) <= 4 * Fraction(ulp(x)) * 10 ** precision
     if not isinstance(r, float):
         vios.append(('C17:round_qty_for_live_mode:type', f'{type(r)}'))
-    if float(fl) > x + tol:
+    if float(fl) > x:  # exactly: 'never rounds up' has no tolerance (an order one ulp above a balance is rejected)
         vios.append(('C17:round_decimals_down:rounds-up', f'round_decimals_down({x!r},{precision}) = {float(fl)!r}'))
     if x - float(fl) >= step + tol:
         vios.append(('C17:round_decimals_down:more-than-one-step', f'round_decimals_down({x!r},{precision}) = {float(fl)!r}'))
@@ -163,7 +163,7 @@ def check_rounding(x, precision):
         if abs(r - step) > 1e-12 * step:
             vios.append(('C17:round_qty_for_live_mode:zero-floor-not-minimum-unit', f'round_qty_for_live_mode({x!r},{precision}) = {r!r}, expected {step!r}'))
     elif not near or exact_floor > 0:
-        if r > x + tol and not (exact_floor == 0):
+        if r > x and not (exact_floor == 0):
             vios.append(('C17:round_qty_for_live_mode:rounds-up', f'round_qty_for_live_mode({x!r},{precision}) = {r!r}'))
         if x - r >= step + tol:
             vios.append(('C17:round_qty_for_live_mode:more-than-one-step', f'round_qty_for_live_mode({x!r},{precision}) = {r!r}'))
@@ -174,7 +174,7 @@ def check_rounding(x, precision):
     for dneg in (-1, -2):
         f2 = float(jh.round_decimals_down(x * 1000, dneg))
         st = 10.0 ** (-dneg)
-        if f2 > x * 1000 + 2 * ulp(x * 1000) or x * 1000 - f2 >= st + 2 * ulp(x * 1000):
+        if f2 > x * 1000 or x * 1000 - f2 >= st + 2 * ulp(x * 1000):
             vios.append(('C17:round_decimals_down:negative-decimals', f'round_decimals_down({x * 1000!r},{dneg}) = {f2!r}'))
     scaled = Fraction(x) * 10 ** precision
     hair = (not near) and 0 < (math.ceil(scaled) - scaled) < Fraction(1, 10 ** 5)
